@@ -1,7 +1,7 @@
 (* C14 — non-vacuity: concrete inhabitants of the theorems' hypotheses, and the witnesses of the
    defects that were repaired in /repo (they now evaluate to the corrected behaviour). *)
 From Coq Require Import List NArith ZArith Bool.
-From V.C14 Require Import WireModel WireSpec BytesModel BytesSpec.
+From V.C14 Require Import WireModel WireSpec BytesModel BytesSpec SerModel SerSpec.
 Import ListNotations.
 Open Scope N_scope.
 
@@ -56,4 +56,36 @@ Proof. vm_compute. reflexivity. Qed.
 Example ex_b64_newlines : base64_decode [81; 10; 85; 13; 61; 10; 61; 10] = Some [65].
 Proof. vm_compute. reflexivity. Qed.
 Example ex_url_bad : urldecode [37; 52; 71] = [37; 52; 71].
+Proof. vm_compute. reflexivity. Qed.
+
+(* ---------------------------------------------------------------------- (3) serialize *)
+Definition ex_value : value :=
+  VList [ VInt (-9223372036854775808); VStr [97; 34; 59; 0; 255]; VStr [98]; VNull; VBool true;
+          VMap [ ([120], VInt 1); ([53], VList []); ([], VMap []) ];
+          VList [ VList [ VMap [ ([107], VStr []) ] ] ] ].
+Example ex_serializable : serializable ex_value = true.
+Proof. vm_compute. reflexivity. Qed.
+Example ex_ser_roundtrip :
+  match serialize ex_value with Some t => unserialize t | None => PFail end = POk (canon ex_value).
+Proof. vm_compute. reflexivity. Qed.
+Example ex_canon_differs : canon ex_value <> ex_value.
+Proof. vm_compute. discriminate. Qed.
+
+(* refuted clauses (known findings, demonstrated on the implementation by the check) *)
+Example serialize_float_refuted : exists v, serialize v = None.
+Proof. exists (VList [VFloat 4609434218613702656]). reflexivity. Qed.
+Example unserialize_whitespace_refuted :
+  exists s, unserialize s = POk VNull /\ parse_strict s = PFail.
+Proof. exists [32; 78; 59; 10]. split; vm_compute; reflexivity. Qed.
+
+(* repaired defects (fix: 62d4051, 56c7d26, 4093a1a, eb236fa) *)
+Example ex_two_strings :          (* a:2:{i:0;s:1:"a";i:1;s:1:"b";} used to be false *)
+  unserialize [97;58;50;58;123; 105;58;48;59; 115;58;49;58;34;97;34;59; 105;58;49;59; 115;58;49;58;34;98;34;59; 125]
+  = POk (VList [VStr [97]; VStr [98]]).
+Proof. vm_compute. reflexivity. Qed.
+Example ex_huge_count :           (* a:99999999999:{} used to exhaust memory *)
+  unserialize [97;58;57;57;57;57;57;57;57;57;57;57;57;58;123;125] = PFail.
+Proof. vm_compute. reflexivity. Qed.
+Example ex_wrong_length :         (* s:5:"abc"; used to give "abc" *)
+  unserialize [115;58;53;58;34;97;98;99;34;59] = PFail.
 Proof. vm_compute. reflexivity. Qed.
